@@ -21,6 +21,7 @@ func (g *Generator) makeNew() {
 
 	var allList []string
 	nameMap := make(map[string]string)
+	usedParams := make(map[string]bool)
 	typeMap := make(map[string]string)
 	var defList []string
 	defValueMap := make(map[string]string)
@@ -53,6 +54,11 @@ func (g *Generator) makeNew() {
 			//a field named Type, Func, Range... must not become the parameter `type`
 			param += "_"
 		}
+		for usedParams[param] {
+			//userID and UserID must not both become the parameter `userID`
+			param += "_"
+		}
+		usedParams[param] = true
 		nameMap[f.name] = param
 	}
 
